@@ -23,9 +23,11 @@ def lean_units(units):
     """units (possibly restricted to some outputs) that the Lean theorems are about, by generated module"""
     byname = {u.name: u for u in units}
     groups = {"Gen1": [], "Gen23": []}
-    for u in units:
-        if "_N1_" in u.name:
-            groups["Gen1"].append(u)
+    # 1D: the four (stress measure, flavour) pairs where the flavour is the derivative of the returned measure
+    # (tau = J sigma for DTAU_DDF), both strategies
+    for st in ("GL", "HK"):
+        for n in ("sm0_to0", "sm1_to1", "sm2_to2", "sm0_to3"):
+            groups["Gen1"].append(byname["%s_N1_%s" % (st, n)])
     for n in ("GL_N2_sm0_to1", "GL_N2_sm1_to1", "GL_N2_sm2_to1", "GL_N2_sm2_to2",
               "GL_N3_sm0_to1", "GL_N3_sm1_to1", "GL_N3_sm2_to1"):
         groups["Gen23"].append(byname[n])
